@@ -168,6 +168,10 @@ func (p *pipeline) expected(w *mWorld) map[triple]bool {
 					dst = "https://" + hostport
 				case o == "proto=tcp":
 					dst = "tcp://" + hostport
+				case strings.HasPrefix(o, "redirect="):
+					if p := strings.SplitN(o[len("redirect="):], ",", 2); len(p) == 2 {
+						dst = p[1]
+					}
 				case strings.HasPrefix(o, "weight="):
 					if _, err := strconv.ParseFloat(o[len("weight="):], 64); err != nil || strings.Contains(o, "Inf") {
 						bad = true // only used by the odd registrations of C14
@@ -332,7 +336,9 @@ func (p *pipeline) settleAbsent(gone map[triple]bool, h0 uint64) (string, bool) 
 var tagChoices = []string{"urlprefix-/a", "urlprefix-/A", "urlprefix-/b", "urlprefix-foo.com/", "urlprefix-Foo.com/x", "urlprefix-/secure proto=https", "urlprefix-:7001 proto=tcp", "urlprefix-/w weight=0.5",
 	// a route that asks fabio to register an alias for it: with this pipeline's configuration (no usable
 	// registry.consul.register.addr) that registration fails, which is no reason not to route
-	"urlprefix-/al register=myalias"}
+	"urlprefix-/al register=myalias",
+	// a redirect route: its destination is the redirect target
+	"urlprefix-/old redirect=301,https://new.example/"}
 
 func genInstance(t *rapid.T, w *mWorld) *fakeconsul.Instance {
 	node := rapid.SampledFrom([]string{"node1", "node2"}).Draw(t, "node")
@@ -380,6 +386,15 @@ func TestC01Pipeline(t *testing.T) {
 func TestC04Pipeline(t *testing.T) {
 	p := startPipeline(t)
 	hx.Check(t, hx.Scale(30, 600), func(t *rapid.T) {
+		runHistory(t, p, false)
+	})
+}
+
+// ... and of C13's: redirect routes come and go with the instances that advertise them
+// (run under the race detector with several service monitors).
+func TestC13Pipeline(t *testing.T) {
+	p := startPipeline(t)
+	hx.Check(t, hx.Scale(30, 400), func(t *rapid.T) {
 		runHistory(t, p, false)
 	})
 }
